@@ -120,6 +120,8 @@ def parseDim (typ : NumType) (tokval : Cps) : Except Err DimVal :=
       .ok { sign := g.1, ip := v.takeWhile (· != cDot), fp := some ((v.dropWhile (· != cDot)).drop 1),
             dim := g.2.2, typ := typ }
     else
+      -- `int(sign + v)` raises ValueError beyond `sys.int_info.default_max_str_digits` digits: logged error
+      if v.length > Gen.C18.maxStrDigits then .error .tooLarge else
       .ok { sign := g.1, ip := v, fp := none, dim := g.2.2, typ := typ }
 
 /-! ## exact layer: the Python number operations on exact decimals -/
@@ -303,6 +305,7 @@ def hashShort (p : Prefs) (val : Cps) : Cps :=
 /-- `type_` values that `Out.append` distinguishes on the paths modelled here -/
 inductive ItemType where
   | char | function | ident | string | uri | hash | number | dimension | percentage | unicodeRange | s
+  | other      -- any other type string, e.g. 'COLOR_VALUE'
 deriving DecidableEq, Repr, Inhabited
 
 def NumType.toItem : NumType → ItemType
